@@ -45,6 +45,11 @@ CONFIGS = {
 }
 
 
+# CBMC processes of this code base peak at 3-9 GB each; 62 GB machine => at most 5 in parallel (an OOM-killed cbmc makes the
+# kani driver abort and the whole group undecided)
+MAX_JOBS = int(os.environ.get("VERIF_KANI_JOBS", "5"))
+
+
 class Undecided(Exception):
     pass
 
@@ -55,7 +60,12 @@ class Harness:
         self.file = file          # path relative to inject dir, e.g. src/hss/mod.rs
         self.meta = meta
         self.line = line
-        self.props = [p for p in meta.get("props", "").split(",") if p]
+        # props=Cxx,Cyy!,Czz : the first property owns the harness (runs in its quick tier if tier=quick); a property marked
+        # with `!` also runs it in its quick tier; the others only in their thorough tier (the harness is then a member of
+        # that property's composition, decided in the owner's check on every change)
+        raw = [p for p in meta.get("props", "").split(",") if p]
+        self.props = [p.rstrip("!") for p in raw]
+        self.quick_props = [p.rstrip("!") for i, p in enumerate(raw) if i == 0 or p.endswith("!")]
         self.tier = meta.get("tier", "quick")
         self.kind = meta.get("kind", "proved")      # proved | bounded
         self.cfg = meta.get("cfg", "default")
@@ -224,7 +234,7 @@ def run_group(scratch, cfg_name, harnesses, jobs=None, extra_args=None):
         os.remove(out_json)
     tmo = max(h.timeout for h in harnesses)
     cmd = ["cargo", "kani", "-Z", "function-contracts", "-Z", "stubbing", "-Z", "unstable-options",
-           "--output-format", "terse", "-j", str(jobs or min(NCPU, max(1, len(harnesses)))),
+           "--output-format", "terse", "-j", str(jobs or min(MAX_JOBS, max(1, len(harnesses)))),
            "--export-json", out_json, "--harness-timeout", "%ds" % tmo, "--exact"]
     if cfg["features"]:
         cmd += ["--features", ",".join(cfg["features"])]
@@ -235,7 +245,7 @@ def run_group(scratch, cfg_name, harnesses, jobs=None, extra_args=None):
     t0 = time.time()
     log("[kani] cfg=%s harnesses=%d: %s" % (cfg_name, len(harnesses), " ".join(h.name for h in harnesses)))
     # overall budget: compile + waves of harnesses
-    waves = (len(harnesses) + NCPU - 1) // NCPU
+    waves = (len(harnesses) + MAX_JOBS - 1) // MAX_JOBS
     overall = 600 + tmo * waves + 120
     try:
         p = subprocess.run(cmd, cwd=scratch, env=env, capture_output=True, text=True, timeout=overall)
